@@ -193,7 +193,8 @@ def audit_list(mods, thms):
         os.remove(path)
     out = clean_out(p.stdout + p.stderr)
     seen = {}
-    for m in re.finditer(r"'([^']+)' (does not depend on any axioms|depends on axioms: \[([^\]]*)\])", out):
+    flat = re.sub(r'\s+', ' ', out)
+    for m in re.finditer(r"'(\S+?)' (does not depend on any axioms|depends on axioms: \[([^\]]*)\])", flat):
         seen[m.group(1)] = set(a.strip() for a in (m.group(3) or '').split(',') if a.strip())
     ok, bad = [], []
     for t in thms:
